@@ -11,6 +11,7 @@ from spec_classes.errors import FrozenInstanceError
 from spec_classes.types import MISSING, UNCHANGED, Attr
 from spec_classes.utils.method_builder import MethodBuilder
 from spec_classes.utils.mutation import (
+    _rollback_on_error,
     _unfrozen,
     invalidate_attrs,
     mutate_attr,
@@ -288,9 +289,10 @@ class DelAttrMethod(MethodDescriptor):
                 default = attr_spec.lookup_default_value(type(self))
 
             if default is MISSING:
-                self.__delattr__.__raw__(self, attr)
-                if not skip_invalidation:
-                    invalidate_attrs(self, attr)
+                with _rollback_on_error(self):  # (deletion + invalidation: one step)
+                    self.__delattr__.__raw__(self, attr)
+                    if not skip_invalidation:
+                        invalidate_attrs(self, attr)
                 return None
 
             # Restore the default through `__setattr__` so that it is prepared
